@@ -5,6 +5,12 @@ sys.path.insert(0, os.path.dirname(os.path.abspath(__file__)))
 from vx import registry as R
 
 CLAIM = {
+ 'C01': ('Deductive proof (Verus, every request byte string and every reply-buffer capacity) on the real text of Server::handle_message and all opcode handlers against an abstract transport: every device write is preceded by the proof that nothing was emitted before (at most one reply, one write call), that a reply is allowed at all (never for FORGET / BATCH_FORGET, including the over-long path), and that the bytes are one complete message (length field = bytes emitted, unique = the request\'s, error zero or a negated errno); all arithmetic, casts, unwraps and the debug assertions of the extracted functions are proved not to fail.',
+         'Verus contracts on extracted real text, reply obligations as preconditions of the emission points'),
+ 'C02': ('Deductive proof (Verus, all field valuations, names and payloads of any length): for every opcode the handler holds only the capability for the one filesystem operation the protocol prescribes with exactly the decoded arguments (optional arguments following their flag bits), handle_message dispatches every opcode number to its handler, replies ENOSYS to unknown ones, and itself calls only id_remap_with_nodeid(ctx from header, nodeid).',
+         'Verus capability preconditions on extracted real text'),
+ 'C03': ('Deductive proof (Verus): the only bytes any handler may emit are the specified reply - header(len, -errno or 0, unique) followed by the encoding of the value the filesystem returned, with one shared definition of the entry encoding (attr flags and split timeouts included) for lookup, mknod, mkdir, symlink, link and create, and the read payload equal to the bytes the filesystem produced.',
+         'Verus contracts on extracted real text, reply obligations as preconditions of the emission points'),
  'C18': ('Deductive proof (Verus, unbounded over all u64/i32 arguments) that the real text of PassthroughFs::seal_size_check lets a request through exactly when it is a write or a size-keeping fallocate that stays within the current file size, and refuses everything else with the prescribed errno. This is the arithmetic gate only.',
          'Verus contracts on extracted real text'),
  'C06': ('Deductive proof (Verus, names of any length) of the name gate on the real text: the predicates is_dot_or_dotdot / is_safe_path_component / validate_path_component equal "no slash, not . or ..", PassthroughFs::validate_path_component applies them iff it runs standalone, PassthroughFs::lookup and Vfs::lookup refuse names with a slash, and every VFS operation that creates, removes, renames or links a name returns EINVAL for an unsafe name and holds no capability to call any backend in that case (a call placed before the check fails its precondition).',
